@@ -319,7 +319,7 @@ func (x *fx) contractCall(fc *FuncContract, key string, names []string, ptypes [
 		x.cur = e.havoc(x.cur, sp)
 	}
 	out := make([]Term, results.Len())
-	post := &Env{e: e, vars: map[string]TV{}, st: x.cur, old: pre, allocOld: pre.alloc, pkg: env.pkg, fx: x}
+	post := &Env{e: e, vars: map[string]TV{}, st: x.cur, old: pre, allocOld: pre.alloc, pkg: env.pkg, fx: x, hyp: true}
 	for k, v := range env.vars {
 		post.vars[k] = v
 	}
